@@ -183,7 +183,7 @@ func runShard(bin, id, tier string, seed int64, i, k int, timeout time.Duration,
 		ctx2, cancel2 := context.WithTimeout(context.Background(), 120*time.Second)
 		cmd2 := exec.CommandContext(ctx2, bin, "-test.run", "^TestProp$", "-test.timeout", "10m")
 		cmd2.Dir = filepath.Join(root(), "props")
-		cmd2.Env = append(os.Environ(), "VERIF_PROP="+id, "VERIF_REPLAY="+hangPath, "VERIF_ROOT="+root())
+		cmd2.Env = append(os.Environ(), "VERIF_PROP="+id, "VERIF_REPLAY="+hangPath, "VERIF_ROOT="+root(), "VERIF_WATCHDOG=off")
 		out2, _ := cmd2.CombinedOutput()
 		timedOut := ctx2.Err() != nil
 		cancel2()
